@@ -195,15 +195,13 @@ func runC17(c *Ctx) {
 		}
 		capOK, capStr := !nonBlockingDelivery, "delivery blocks"
 		if nonBlockingDelivery {
-			mk, _ := stripConv(reg.Value).(*ssa.MakeChan)
-			if mk == nil {
-				if rt := ff.Term(reg.Value); rt.Op == "make" && rt.Sym == "chan" && rt.V != nil {
-					mk, _ = stripConv(rt.V).(*ssa.MakeChan)
-				}
-			}
-			if mk != nil {
-				capStr = ff.Term(mk.Size).String()
-				if k, isC := constInt(mk.Size); isC && k >= 1 {
+			// the make() is found through the term, so that it is also seen through a captured
+			// variable or a new helper
+			capStr = "not a make(chan) in this call: " + ff.Term(reg.Value).String()
+			if rt := ff.Term(reg.Value); rt.Op == "make" && rt.Sym == "chan" && len(rt.Args) == 1 {
+				capStr = rt.Args[0].String()
+				var k int64
+				if _, err := fmt.Sscan(capStr, &k); err == nil && rt.Args[0].Op == "const" && k >= 1 {
 					capOK = true
 				}
 			}
